@@ -9,11 +9,12 @@ func init() {
 func runC03(opt *Options) int {
 	lr := &laRun{
 		Opt:  opt,
-		Pkgs: []string{"generator", "xtype"},
+		Pkgs: []string{"generator", "xtype", "builder"},
 		Kernels: []layera.Kernel{
 			{Name: "K1.dispatch", Pkg: "generator", Harness: "VerifHarness_C03_Dispatch", Unwind: 800, MaxPaths: 3000000, Workers: 16},
 			{Name: "K5.findfield", Pkg: "xtype", Harness: "VerifHarness_C03_FindField", Unwind: 24, MaxPaths: 3000000, Workers: 16},
 			{Name: "K5.accessible", Pkg: "xtype", Harness: "VerifHarness_C03_Accessible", Unwind: 16},
+			{Name: "K5.structassign", Pkg: "builder", Harness: "VerifHarness_C05_StructAssign", Unwind: 32, MaxPaths: 3000000, Workers: 16},
 		},
 		Funcs: []string{"generator.(*generator).buildNoLookup", "generator.(*generator).assignNoLookup", "generator.getOverlappingStructDefinition", "generator.typeMismatch", "generator.BuildSteps (order)",
 			"builder.(*UseUnderlyingTypeMethods|SkipCopy|Enum|BasicTargetPointerRule|Pointer|SourcePointer|TargetPointer|Basic|Struct|List|Map).Matches", "builder.isEnum", "builder.findUnderlyingExtendMapping",
